@@ -45,11 +45,11 @@ enum { OP_FREE = 0, OP_DUP = 1, OP_READ = 2 };
 static const char *const op_name[] = { "free", "dup", "read" };
 
 enum { CL_FREE_OVERLAP, CL_DUP_FREE_OVERLAP, CL_LAST_TWO_DIFFERENT, CL_3THREADS, CL_SWITCH_IN_OP, CL_POOL0, CL_POOLN,
-       CL_POL_TAPE, CL_POL_PCT, CL_POL_PREFIX, CL_DUP_DONE, CL_READ_DONE, CL_PREEMPT, CL_CAS_RETRY };
+       CL_POL_TAPE, CL_POL_PCT, CL_POL_PREFIX, CL_DUP_DONE, CL_READ_DONE, CL_PREEMPT, CL_CAS_RETRY, CL_FAILED_ALLOC };
 static const char *const class_names[] = {
     "two_frees_in_flight_together", "dup_in_flight_with_free", "last_two_decrements_by_different_threads", "three_threads",
     "context_switch_inside_operation", "pool_depth_0", "pool_depth_positive", "policy_tape", "policy_pct", "policy_prefix",
-    "dup_executed", "read_executed", "preempted", "pool_cas_retry", NULL };
+    "dup_executed", "read_executed", "preempted", "pool_cas_retry", "allocation_failures_before_the_area", NULL };
 
 struct prog {
     int nthreads;
@@ -57,6 +57,7 @@ struct prog {
     int init[MAXT];
     int nops[MAXT];
     uint8_t ops[MAXT][MAXOPS];
+    int failed_allocs;          /* allocations that fail (umem exhausted) before the shared area is made: 0-2 (last: the templates use positional initialisers) */
 };
 
 struct wrap_mgr { struct urefcount rc; struct umem_mgr mgr; struct umem_mgr *inner; };
@@ -239,11 +240,25 @@ static int run_case(const struct prog *prog, struct vs_config *cfg, struct vp_re
     cx.w.mgr.umem_mgr_vacuum = NULL;
     cx.w.inner = inner;
     cx.mgr = ubuf_block_mem_mgr_alloc(p->ubuf_pool, p->shared_pool, &cx.w.mgr, 0, 0, 0, 0);
+    /* a manager that has seen allocations fail (the memory allocator refused the area) must hand out structures that are as
+     * good as new: what such a failure leaves in the pools must not upset the count of the next area */
+    for (int k = 0; inner && cx.mgr && k < p->failed_allocs; k++) {
+        umem_count_fail_nth(inner, 1);
+        struct ubuf *f = ubuf_block_alloc(cx.mgr, AREA);
+        umem_count_fail_nth(inner, 0);
+        if (f != NULL) { ubuf_free(f); }    /* (the failure was not reached: nothing to say) */
+        rep->classes |= 1u << CL_FAILED_ALLOC;
+    }
     struct ubuf *first = inner && cx.mgr ? ubuf_block_alloc(cx.mgr, AREA) : NULL;
     if (first == NULL) { __lsan_enable(); vs_end(); return vp_internal(rep, "fixture allocation failed"); }
     {
         uint8_t *w; int size = -1;
-        if (!ubase_check(ubuf_block_write(first, 0, &size, &w)) || size != AREA) { __lsan_enable(); vs_end(); return vp_internal(rep, "ubuf_block_write"); }
+        if (!ubase_check(ubuf_block_write(first, 0, &size, &w)) || size != AREA) {
+            __lsan_enable(); vs_end();
+            if (p->failed_allocs)   /* the only holder of a brand-new area is refused a writable mapping: the count of the area is off */
+                return vp_fail(rep, "C09/area/count-after-failed-allocation", "after %d allocation(s) failed for lack of memory, the next buffer allocated -- sole holder of its area -- is refused a writable mapping: the holder count of the recycled structure is wrong", p->failed_allocs);
+            return vp_internal(rep, "ubuf_block_write");
+        }
         for (int i = 0; i < AREA; i++) w[i] = pattern(i);
         ubuf_block_unmap(first, 0);
     }
@@ -321,7 +336,9 @@ static const uint8_t pool_cfg[5][2] = { { 0, 0 }, { 2, 2 }, { 1, 1 }, { 0, 2 }, 
 static void decode_prog(struct tape *t, struct prog *p)
 {
     memset(p, 0, sizeof(*p));
-    p->nthreads = 2 + tp_u8(t) % 2;
+    uint8_t b0 = tp_u8(t);
+    p->nthreads = 2 + b0 % 2;
+    p->failed_allocs = (b0 >> 1) % 4 == 3 ? 1 + ((b0 >> 3) & 1) : 0;
     uint8_t pc = tp_u8(t) % 5;
     p->ubuf_pool = pool_cfg[pc][0];
     p->shared_pool = pool_cfg[pc][1];
